@@ -59,7 +59,7 @@ type vEntry struct {
 	Err    string      `json:"err,omitempty"`
 	Bar    bool        `json:"bar,omitempty"`
 	Head   bool        `json:"head,omitempty"`
-	OSt    int         `json:"ost,omitempty"`   // oracle: the masquerade handler alone on a recorder
+	OSt    int         `json:"ost,omitempty"` // oracle: the masquerade handler alone on a recorder
 	OHdr   [][2]string `json:"ohdr,omitempty"`
 	OBody  string      `json:"obody,omitempty"`
 }
@@ -157,6 +157,9 @@ type vAuth struct{ e *vEnv }
 func (a *vAuth) Authenticate(addr net.Addr, auth string, tx uint64) (bool, string) {
 	c := a.e.connOf(addr)
 	a.e.add(vEntry{C: c, K: "authcall", Auth: auth, Rx: strconv.FormatUint(tx, 10)})
+	if strings.Contains(auth, "slow") {
+		time.Sleep(2 * time.Millisecond) // a slow authentication backend: widens the window of concurrent attempts
+	}
 	ok := strings.HasPrefix(auth, "good")
 	id := ""
 	if ok {
@@ -444,6 +447,7 @@ type vClient struct {
 	tr     *quic.Transport
 	qc     *quic.Conn
 	h3     *http3.ClientConn
+	mu     sync.Mutex
 	rid    int
 	authed bool // the client saw 233 on this connection
 	closed bool
@@ -462,10 +466,10 @@ func vDial(e *vEnv, c int) (*vClient, error) {
 	e.addrs[pc.LocalAddr().String()] = c
 	e.mu.Unlock()
 	tr := &quic.Transport{Conn: pc}
-	ctx, cancel := context.WithTimeout(context.Background(), 10*time.Second)
+	ctx, cancel := context.WithTimeout(context.Background(), 20*time.Second)
 	defer cancel()
 	qc, err := tr.Dial(ctx, e.srvAddr, &tls.Config{InsecureSkipVerify: true, NextProtos: []string{http3.NextProtoH3}},
-		&quic.Config{EnableDatagrams: true, MaxIdleTimeout: 20 * time.Second})
+		&quic.Config{EnableDatagrams: true, MaxIdleTimeout: 40 * time.Second})
 	if err != nil {
 		_ = pc.Close()
 		return nil, err
@@ -506,8 +510,10 @@ func (cl *vClient) shutdown() {
 
 // doReq sends one HTTP/3 request on this connection and waits for the complete response.
 func (cl *vClient) doReq(s vReqSpec, bar bool) (status int, hdr [][2]string, body []byte, err error) {
+	cl.mu.Lock()
 	cl.rid++
 	rid := cl.rid
+	cl.mu.Unlock()
 	req, path, berr := s.build()
 	if berr != nil {
 		return 0, nil, nil, berr
@@ -520,7 +526,7 @@ func (cl *vClient) doReq(s vReqSpec, bar bool) (status int, hdr [][2]string, bod
 		ent.CCRX = s.CCRX
 	}
 	cl.e.add(ent)
-	ctx, cancel := context.WithTimeout(context.Background(), 10*time.Second)
+	ctx, cancel := context.WithTimeout(context.Background(), 20*time.Second)
 	defer cancel()
 	resp, rerr := cl.h3.RoundTrip(req.WithContext(ctx))
 	if rerr != nil {
@@ -531,7 +537,9 @@ func (cl *vClient) doReq(s vReqSpec, bar bool) (status int, hdr [][2]string, bod
 	_ = resp.Body.Close()
 	hdr = vCanonHeaders(resp.Header)
 	if resp.StatusCode == protocol.StatusAuthOK {
+		cl.mu.Lock()
 		cl.authed = true
+		cl.mu.Unlock()
 	}
 	ost, ohdr, obody := vOracle(cl.e.cfg.Masq, s)
 	cl.e.add(vEntry{C: cl.c, K: "resp", Rid: rid, Status: resp.StatusCode, Hdr: vShortHdr(hdr), Body: vHex(b), Bar: bar, Head: s.Method == "HEAD",
@@ -561,7 +569,7 @@ func (cl *vClient) barrier() {
 // and not one byte.  ft < 0: the stream is opened and closed without a byte (frame type unreadable).
 func (cl *vClient) doStream(ft int64, addr string) {
 	cl.e.add(vEntry{C: cl.c, K: "stream", Ft: ft, Addr: addr})
-	ctx, cancel := context.WithTimeout(context.Background(), 10*time.Second)
+	ctx, cancel := context.WithTimeout(context.Background(), 20*time.Second)
 	defer cancel()
 	st, err := cl.qc.OpenStreamSync(ctx)
 	if err != nil {
@@ -582,7 +590,7 @@ func (cl *vClient) doStream(ft int64, addr string) {
 	}
 	_, _ = st.Write(buf)
 	_ = st.Close()
-	_ = st.SetReadDeadline(time.Now().Add(10 * time.Second))
+	_ = st.SetReadDeadline(time.Now().Add(20 * time.Second))
 	got, rerr := io.ReadAll(st)
 	res := "none"
 	n := 0
@@ -640,7 +648,7 @@ func (cl *vClient) doClose() {
 	_ = cl.qc.CloseWithError(0x100, "")
 	if cl.authed {
 		c := cl.c
-		cl.e.waitFor(3*time.Second, func(l []vEntry) bool {
+		cl.e.waitFor(10*time.Second, func(l []vEntry) bool {
 			for i := len(l) - 1; i >= 0; i-- {
 				if l[i].K == "disconnect" && l[i].C == c {
 					return true
